@@ -90,9 +90,9 @@ def strip_comments(src):
     return re.sub(r"--.*", "", src)
 
 
-def import_closure(pid):
-    """files of the project that Thm/<pid>.lean transitively imports (including itself)"""
-    todo = ["PeliteModel.Thm." + pid]
+def import_closure(pid, modules=None):
+    """files of the project that the property's theorem modules transitively import (including themselves)"""
+    todo = list(modules or ["PeliteModel.Thm." + pid])
     seen = []
     while todo:
         m = todo.pop()
@@ -109,29 +109,32 @@ def import_closure(pid):
     return [os.path.join(LEAN, *m.split(".")) + ".lean" for m in seen]
 
 
-def grep_forbidden(pid):
+def grep_forbidden(pid, modules=None):
     hits = []
-    for p in import_closure(pid):
+    for p in import_closure(pid, modules):
         for i, line in enumerate(strip_comments(open(p).read()).split("\n"), 1):
             if FORBIDDEN.search(line):
                 hits.append("%s:%d: %s" % (os.path.relpath(p, LEAN), i, line.strip()))
     return hits
 
 
-def audit(pid):
+def audit(pid, modules=None):
     """#print axioms for every theorem of the property. Returns list of dict(name, axioms, ok)."""
-    names = theorem_names(pid)
+    modules = modules or ["PeliteModel.Thm." + pid]
+    names = []
+    for m in modules:
+        names += theorem_names(m.split(".")[-1])
     d = os.path.join(WORK, pid)
     os.makedirs(d, exist_ok=True)
     path = os.path.join(d, "Audit.lean")
     with open(path, "w") as f:
-        f.write("import PeliteModel.Thm.%s\n" % pid)
+        for m in modules:
+            f.write("import %s\n" % m)
         for n in names:
             f.write("#print axioms %s\n" % n)
     with Lock("lake"):
         rc, out, dt = sh(["lake", "env", "lean", path], cwd=LEAN)
     res = {}
-    cur = None
     # messages: "'X' depends on axioms: [a, b]" (possibly wrapped) / "'X' does not depend on any axioms"
     flat = re.sub(r"\s+", " ", out)
     for m in re.finditer(r"'([^']+)' (does not depend on any axioms|depends on axioms: \[([^\]]*)\])", flat):
